@@ -44,3 +44,23 @@ Fixpoint s_run (s : orset) (ops : list sop) (acc : list orset) : orset * list or
                   | None => s_run s r acc
                   end
   end.
+
+(* PNCounter originator history *)
+Inductive pop := PInc (n v : N) | PDec (n v : N) | PShip.
+Fixpoint p_run (c : pncounter) (ops : list pop) (acc : list pncounter) : pncounter * list pncounter :=
+  match ops with
+  | [] => (c, acc)
+  | PInc n v :: r => p_run (p_increment c n v) r acc
+  | PDec n v :: r => p_run (p_decrement c n v) r acc
+  | PShip :: r => match p_deltaOf c with
+                  | Some d => p_run (p_reset c) r (d :: acc)
+                  | None => p_run c r acc
+                  end
+  end.
+Fixpoint p_nowrap (c : pncounter) (ops : list pop) : Prop :=
+  match ops with
+  | [] => True
+  | PInc n v :: r => (cget (g_state (p_inc c)) n + v < two64)%N ∧ p_nowrap (p_increment c n v) r
+  | PDec n v :: r => (cget (g_state (p_dec c)) n + v < two64)%N ∧ p_nowrap (p_decrement c n v) r
+  | PShip :: r => match p_deltaOf c with Some _ => p_nowrap (p_reset c) r | None => p_nowrap c r end
+  end.
